@@ -1,6 +1,7 @@
 package lib
 
 import (
+	"context"
 	"encoding/json"
 	"fmt"
 	"io/fs"
@@ -10,6 +11,7 @@ import (
 	"strings"
 	"time"
 
+	"github.com/buchgr/bazel-remote/v2/cache"
 	"github.com/buchgr/bazel-remote/v2/cache/disk"
 )
 
@@ -247,6 +249,33 @@ func CompareDir(c disk.Cache, deep bool) (DirDiscrepancy, disk.VerifSnap) {
 	sort.Strings(d.Extra)
 	sort.Strings(d.Missing)
 	return d, snap
+}
+
+// CheckEntriesFound is the external half of M-dir: every entry the snapshot lists (and whose file is therefore
+// legitimately on disk) must be found by an existence check; a listed entry that lookups do not find is a file
+// without a usable index entry. It touches every entry (recency!), so only checks that do not judge eviction order use it.
+func CheckEntriesFound(c disk.Cache, snap disk.VerifSnap) []string {
+	var bad []string
+	for _, e := range snap.Entries {
+		i := strings.IndexByte(e.Key, '/')
+		if i < 0 {
+			continue
+		}
+		var kind cache.EntryKind
+		size := int64(-1)
+		switch e.Key[:i] {
+		case "cas":
+			kind, size = cache.CAS, e.Size
+		case "ac":
+			kind = cache.AC
+		default:
+			kind = cache.RAW
+		}
+		if ok, _ := c.Contains(context.Background(), kind, e.Key[i+1:], size); !ok {
+			bad = append(bad, e.Path)
+		}
+	}
+	return bad
 }
 
 // CheckDirQuiescent is M-dir: must be called when the harness has no
